@@ -85,6 +85,8 @@ type Explorer struct {
 	leafSample  int // keep a witness for 1 in leafSample leaves
 	maxLeaves   int
 	deadline    time.Time
+	initSteps   int
+	initState   map[*ssa.Global]*Value // globals after the repository's package initialisers (nil: run them on every path)
 
 	mu      sync.Mutex
 	cond    *sync.Cond
@@ -336,8 +338,10 @@ func (m *Machine) runPath(harness *ssa.Function, prefix []int, arg int) {
 				panic(r)
 			}
 		}()
-		for _, p := range ex.repoPkgs {
-			m.callFn(nil, p.Func("init"), nil, nil)
+		if ex.initState == nil {
+			for _, p := range ex.repoPkgs {
+				m.callFn(nil, p.Func("init"), nil, nil)
+			}
 		}
 		m.callFn(nil, harness, []Value{Int{V: uint64(int64(arg))}}, nil)
 	}()
@@ -468,4 +472,24 @@ func collectRepoGlobals(prog *ssa.Program) (pkgs []*ssa.Package, globals []*ssa.
 	}
 	sort.SliceStable(pkgs, func(i, j int) bool { return order[pkgs[i].Pkg] < order[pkgs[j].Pkg] })
 	return
+}
+
+// runInits executes the package initialisers of the repository's packages once
+// (they are deterministic and take no input) and keeps the resulting globals.
+func (ex *Explorer) runInits() {
+	m := &Machine{ex: ex, prog: ex.prog, fnSteps: map[*ssa.Function]int{}, fnBranches: map[*ssa.Function]int{}}
+	ex.stats = &RunStats{Unknowns: map[string]int{}}
+	m.resetPath(nil)
+	func() {
+		defer func() {
+			if r := recover(); r != nil {
+				panic(engineErr{fmt.Sprint("package initialisers failed under the executor: ", r)})
+			}
+		}()
+		for _, p := range ex.repoPkgs {
+			m.callFn(nil, p.Func("init"), nil, nil)
+		}
+	}()
+	ex.initSteps = m.steps
+	ex.initState = m.globals
 }
